@@ -266,7 +266,7 @@ def frag_powershell():
 
 URL_SCHEMES = [b"http", b"https", b"ftp", b"HtTp", b"HTTP", b"hxxp", b"file"]
 URL_USERINFO = [b"", b"user@", b"user:pw@", b"user:@", b":pw@", b"u%40x:p@", b"@"]
-URL_HOSTS = [b"example.com", b"1.2.3.4", b"0x7f.1", b"[::1]", b"%65xample.com", b"evil.example.co.uk", b"017700000001", b"1.2.3.4%20x", b"%5B::1%5D", b"[::1", b"a.b", b"3232235777", b"0300.0250.0.1", b"example.com.", b"xn--e1afmkfd.xn--p1ai", b"[1::2::3]"]
+URL_HOSTS = [b"example.com", b"1.2.3.4", b"0x7f.1", b"[::1]", b"%65xample.com", b"evil.example.co.uk", b"017700000001", b"1.2.3.4%20x", b"%5B::1%5D", b"[::1", b"a.b", b"3232235777", b"0300.0250.0.1", b"example.com.", b"xn--e1afmkfd.xn--p1ai", b"[1::2::3]", b".com", b"%2Eio"]
 URL_PORTS = [b"", b":80", b":", b":99999", b":65535", b":0", b":8080"]
 URL_PATHS = [b"", b"/", b"/a/b", b"/a/../b", b"/../..", b"/a/./b/", b"/%41%2f%2Fx", b"/a%2e%2e/b", b"/a/b.exe", b"/.", b"/..", b"/a//b", b"/%zz", b"/x)", b"/a'b"]
 URL_QUERIES = [b"", b"?", b"?q=1", b"?q=%41&r=%zz", b"?u=http://1.2.3.4/"]
